@@ -419,3 +419,8 @@ PROPS["C15"]["floors"]["any"]["runs_cancelling_round"] = 1000
 PROPS["C13"]["quick"].append({"variant": "default", "cases": 12000, "worker_prop": "C14sym", "timeout": 600})
 PROPS["C13"]["thorough"].append({"variant": "default", "cases": 300000, "worker_prop": "C14sym", "timeout": 3000})
 PROPS["C13"]["floors"]["any"]["recorded_equalities_rechecked"] = 100000
+# C01/C02 with an analysis attached: the same histories, queries and oracle, the e-graph carrying the (min size, min depth) analysis
+# of c14s.rs whose modify hook inserts parents (make / merge / modify run inside every operation; the verdicts stay exact)
+for _p in ("C01", "C02"):
+    PROPS[_p]["quick"].append({"variant": "default", "cases": 5000, "params": {"profile": "mix", "analysis": 1}, "timeout": 600})
+    PROPS[_p]["thorough"].append({"variant": "default", "cases": 150000, "params": {"profile": "mix", "analysis": 1}, "timeout": 3000})
